@@ -7,7 +7,10 @@ Local Open Scope N_scope.
 Lemma count_elem_app : forall a b, count_elem_nodes (a ++ b) = (count_elem_nodes a + count_elem_nodes b)%nat.
 Proof. induction a as [|n a IH]; intros b; [reflexivity|]. destruct n; cbn [app count_elem_nodes]; rewrite IH; reflexivity. Qed.
 Lemma has_text_app : forall a b, has_text_node (a ++ b) = has_text_node a || has_text_node b.
-Proof. induction a as [|n a IH]; intros b; [reflexivity|]. destruct n; cbn [app has_text_node]; auto. Qed.
+Proof.
+  induction a as [|n a IH]; intros b; [reflexivity|]. destruct n; cbn [app has_text_node]; auto.
+  rewrite IH, orb_assoc. reflexivity.
+Qed.
 
 Lemma split_root_spec : forall l acc pre root post, split_root acc l = Some (pre, root, post) ->
   rev acc ++ l = pre ++ root :: post /\ (exists ns nm a k, root = Elem ns nm a k) /\
@@ -117,7 +120,7 @@ Lemma annot_counts : forall base l,
   count_elems (map (annot base) l) = count_elem_nodes l /\ has_text (map (annot base) l) = has_text_node l.
 Proof.
   intros base. induction l as [|n l [I1 I2]]; [split; reflexivity|].
-  destruct n; cbn [map annot count_elems count_elem_nodes has_text has_text_node]; split; auto.
+  destruct n; cbn [map annot count_elems count_elem_nodes has_text has_text_node]; split; auto. rewrite I2. reflexivity.
 Qed.
 
 (** documents whose document element is not itself an xi:include *)
